@@ -611,6 +611,9 @@ func RunWatchOnlySolo(r sim.Src, mons []*sim.Mon, keepLog bool) *sim.World {
 		cfg.MaxTimePerBlock = tpb * 3
 	}
 	s := sim.NewSolo(cfg, r, self, true, mons, keepLog)
+	if amev >= 0 {
+		s.W.Stat("amev")
+	}
 	nd := s.N
 	for i := r.Intn("ntx", 4); i > 0; i-- {
 		nd.AddTx(s.W.NewTx(false))
